@@ -17,6 +17,7 @@ func init() {
 	verifHarnesses["VerifC03_PingFire"] = VerifC03_PingFire
 	verifHarnesses["VerifC03_VoidThrows"] = VerifC03_VoidThrows
 	verifHarnesses["VerifC03_Names"] = VerifC03_Names
+	verifHarnesses["VerifC03_EchoCompact"] = VerifC03_EchoCompact
 	verifHarnesses["VerifC03_ConcurrentCalls"] = VerifC03_ConcurrentCalls
 }
 
@@ -264,14 +265,24 @@ func verifAppOutcome(err error, appType int32) {
 	verifAssert(ok && te.TypeId() == appType, "an application exception keeps its type")
 }
 
+// verifI32: every int32 for the fixed-width binary protocol; for the variable-length
+// protocols a range that covers one- and two-byte encodings of both signs (an
+// arbitrary value would fork at every varint byte / decimal digit)
+func verifI32() int32 {
+	if verifProtocol != 0 {
+		return int32(verifRange(-70, 70))
+	}
+	return verifNondetI32()
+}
+
 func verifInner() *Inner {
 	in := NewInner()
-	in.A = verifNondetI32()
+	in.A = verifI32()
 	if verifNondetBool() {
 		b := verifStr(verifChoice(verifBound() + 1))
 		in.B = &b
 	}
-	in.C = Color(verifNondetI32())
+	in.C = Color(verifI32())
 	return in
 }
 
@@ -285,8 +296,26 @@ func verifInnerEq(a, b *Inner) bool {
 	return a.B == nil || *a.B == *b.B
 }
 
+// verifProtocol: 0 binary, 1 compact, 2 JSON (set by the entry wrappers below)
+var verifProtocol int
+
+func verifThriftFactory() thrift.TProtocolFactory {
+	switch verifProtocol {
+	case 1:
+		return thrift.NewTCompactProtocolFactoryConf(nil)
+	case 2:
+		return thrift.NewTJSONProtocolFactory()
+	}
+	return thrift.NewTBinaryProtocolFactoryDefault()
+}
+
+func VerifC03_EchoCompact() {
+	verifProtocol = 1
+	VerifC03_Echo()
+}
+
 func verifSetup(h *verifHandler) (*FBasicClient, *verifLoop) {
-	pf := frugal.NewFProtocolFactory(thrift.NewTBinaryProtocolFactoryDefault())
+	pf := frugal.NewFProtocolFactory(verifThriftFactory())
 	loop := &verifLoop{proc: NewFBasicProcessor(h), pf: pf}
 	return NewFBasicClient(frugal.NewFServiceProvider(loop, pf)), loop
 }
@@ -297,11 +326,11 @@ func VerifC03_Echo() {
 	h.oops = NewOops()
 	h.oops.Why = verifStr(verifChoice(2))
 	if verifNondetBool() {
-		c := verifNondetI32()
+		c := verifI32()
 		h.oops.Code = &c
 	}
 	client, loop := verifSetup(h)
-	arg, n := verifInner(), verifNondetI32()
+	arg, n := verifInner(), verifI32()
 	fctx := frugal.NewFContext("cid")
 	got, err := client.Echo(fctx, arg, n)
 
